@@ -55,6 +55,13 @@ def run(ctx):
                     break
             sg, sg2 = valcorr.first_segment(g), valcorr.first_segment(g2)
             if sg is not None:
+                # ... and validate_segment_level with a SEGMENT as root
+                want = valcorr.summarize(valcorr.run_segment_level(sg, c["soll"]))
+                got = valcorr.summarize(valcorr.run_segment_level(sg2, not c["soll"]))
+                ctx.add_eval(2)
+                if want != got:
+                    ctx.fail(f"soll-level-segment|{str(valcorr.describe(c))[:300]}", dict(valcorr.describe(c), entry="validate_segment_level", root_segment=sg[1], rewritten=sg2),
+                             f"{want[1] if want[0] == 'exn' else want[1][:8]}", f"{got[1] if got[0] == 'exn' else got[1][:8]}", "oracle: C14 equation on ahbicht (validate_segment_level, segment as root)")
                 for parent in (None, "IS_REQUIRED", "IS_OPTIONAL"):
                     want = valcorr.summarize(valcorr.run_segment(sg, parent, c["soll"]))
                     got = valcorr.summarize(valcorr.run_segment(sg2, parent, not c["soll"]))
